@@ -6,11 +6,125 @@ HERE = os.path.dirname(os.path.dirname(os.path.abspath(__file__)))
 
 # id -> (technique, level text, level note, design ref)
 CHECKS = {
-    "C14": (
-        "proptest-generated cells/placements vs an independent lattice model (differential + metamorphic linearity, multiset comparison of periodic images)",
-        "Exploration: 4e5 (quick) / 2e7 (thorough) generated cells of all four families with arbitrary placements and shell counts 0..6, each compared with the harness's own lattice (M f, the full multiset of translates, |A x B|). Holds only on what was generated; the domain is a product of continuous ranges, so sampling plus boundary/special values is the honest level.",
+    'C01': (
+        'proptest-generated crystal states (uniform, thin-cell, slide-to-contact, optimiser histories) vs an exhaustive lattice-image enumeration with separating-axis / disc-distance gaps (differential oracle)',
+        'Exploration: ~5.7e7 (quick) generated (cell, site) states over all groups and shapes, built to reach far-image overlaps (thin cells, copies on opposite faces, contact bisection) plus every state visited by 320 real optimiser runs; each scored state is judged by enumerating every image within two enclosing radii from the lattice geometry. Absence is not proven; the generator families and their hit rates on the original defect are recorded in DESIGN.md.',
+        'Trusted: harness geometry kernel (ITA tables, SAT for convex polygons, lattice inequality solver; unit-tested). States with score None are not judged. Polygons convex.',
+        'DESIGN.md §2 C01',
+    ),
+    'C02': (
+        'proptest-generated shapes, cells and valid states vs independent area formulas (shoelace, slab-integrated disc union, |AxB|) — differential oracle',
+        "Exploration: 4e5 shapes incl. triple-overlap/containment/coincident trimers, 4e5 cells, ~3e5 oracle-valid states per quick run; score compared with N*area/|AxB| from the harness's own table, shape and lattice at rel 1e-9.",
+        'Trusted: slab integration of disc unions (checked against the 2-disc closed form, a grid estimate, and a 40-digit mpmath evaluation during development).',
+        'DESIGN.md §2 C02',
+    ),
+    'C03': (
+        'proptest-generated LJ crystals and re-description twins vs a once-per-pair lattice sum with geometric neighbour enumeration (differential + metamorphic)',
+        "Exploration: 3e5 states (quick) x optional twin (origin shifts, free shifts, 2-fold re-description, across-face); score vs minus the harness's lattice energy per molecule; uncut potential judged against the interval between the 3-shell and the converged sum.",
+        "Trusted: pair energies come from the package's own LJ2::energy (C13 decides that law); harness places molecules and enumerates pairs. Known finding lj-beyond-3-shells accepted only as exact-sum-or-3-shell-sum.",
+        'DESIGN.md §2 C03',
+    ),
+    'C04': (
+        'proptest-generated states (constructed and after optimisation) checked for invariance of the placed point sets under the ITA operations mapped through the actual cell (metamorphic / invariant oracle)',
+        'Exploration: 3e5 constructed states + 600 optimisation histories per quick run, hard and LJ, chiral shapes included; every operation must be orthogonal in the current cell and permute the placed copies modulo lattice vectors.',
+        'Trusted: ITA table and lattice of the harness; shapes compared as point sets.',
+        'DESIGN.md §2 C04',
+    ),
+    'C05': (
+        'proptest-generated optimiser configurations with kt_start=0 on scripted/landscape/real states; accept/reject history inferred from successive score() calls and judged against the deterministic kT=0 model (model-based history oracle)',
+        'Exploration: 3.75e4 optimiser runs per quick run (8e7 observed steps) over every combination of kt_finish/kt_ratio/steps/inner_steps/convergence/step size, synthetic and real states.',
+        'Trusted: the trace model (one score() call per proposal); ambiguous steps excluded, never guessed.',
+        'DESIGN.md §2 C05, §1.4',
+    ),
+    'C06': (
+        'stateful scripted score functions (forced accept/reject sequences) + decision-agnostic trace model over proposal vectors; invariant over the history',
+        'Exploration: 2e4 adversarial scripts (4e7 steps) + 2e3 real-state runs per quick run; every proposal must derive from the proposal-or-previous state, the returned parameters must be the last accepted state.',
+        'Trusted: trace model; the last-accepted clause uses only forced outcomes and only when all interior decisions were honoured.',
+        'DESIGN.md §2 C06',
+    ),
+    'C07': (
+        'scripted forced outcomes for the deterministic clauses + acceptance-frequency test (6-sigma binomial) of scripted worse moves at 12 (d,kT) pairs (statistical oracle)',
+        'Exploration: 1.5e4 deterministic scripts and 480 frequency trials of >= 4000 counted proposals per quick run (1e5 in thorough).',
+        'Trusted: binomial test with stated false-alarm rate; ambiguous steps excluded independently of outcome.',
+        'DESIGN.md §2 C07',
+    ),
+    'C08': (
+        'proptest-generated start states and chains of 1..4 optimiser configurations; range/family invariants read from the JSON of every stage output',
+        "Exploration: 4e4 initial states and 2.5e3 chains (5e6 steps) per quick run; ranges taken from the statement, relative to each stage's input.",
+        'Trusted: JSON field names of the serialised state; handing the state on through serde_json::Value.',
+        'DESIGN.md §2 C08',
+    ),
+    'C09': (
+        'proptest-generated task batches run alone vs on rayon pools of generated sizes/orders, and the real CLI under RAYON_NUM_THREADS 1..16 (differential against the sequential reference)',
+        'Exploration: 300 batches (1.2e4 task executions) on pools of 1..32 threads and 120 CLI argument sets x 3-4 thread counts per quick run. Schedules are sampled, not enumerated.',
+        'Trusted: byte comparison of serde_json output. A race needing one specific interleaving can be missed (stated in DESIGN.md §5).',
+        'DESIGN.md §2 C09',
+    ),
+    'C10': (
+        'proptest-generated CLI argument sets run for k=1..kmax replications; hook-reported replica scores, prefix monotonicity, label/shape comparison with the ITA table and documented constructors; generated state vectors for max()/cmp()',
+        'Exploration: 400 argument sets (~1200 CLI runs) and 2e4 ordering vectors per quick run.',
+        'Trusted: verif-hooks line per replica (additive, guarded); harness table/constructors.',
+        'DESIGN.md §2 C10, §1.6',
+    ),
+    'C11': (
+        "round-trip oracle over proptest-generated states (incl. arbitrary mantissas and raw f64 bit patterns), SVG parsed and compared as a multiset with the harness's placements, CLI files re-read",
+        'Exploration: 1.5e5 round trips, 4e4 SVGs, 160 CLI file pairs per quick run; numbers compared bit for bit.',
+        'Trusted: serde_json::Value construction of the inputs (exact); harness placements for the SVG multiset.',
+        'DESIGN.md §2 C11',
+    ),
+    'C12': (
+        'proptest-generated shape pairs in eight constructed families (generic, edge-aligned, vertex contacts, coincident, mirror, near-touching by bisection) vs separating-axis / disc distance, with swap and common-motion twins (differential + metamorphic)',
+        "Exploration: 1e6 pairs x 3 variants per quick run (8e7 pairs in thorough); three-valued verdict with the statement's 1e-9 band.",
+        'Trusted: SAT gap (lower bound of true separation, exact penetration for convex polygons).',
+        'DESIGN.md §2 C12',
+    ),
+    'C13': (
+        'proptest-generated particle pairs and molecules vs the closed-form shifted 12-6 law, with symmetry, rigid-motion and additivity relations (differential + metamorphic)',
+        'Exploration: 1.8e6 cases per quick run incl. r within 1e-9 of the cutoff, unlike pairs, molecules of 1..5 particles.',
+        'Trusted: closed form; no mixing rule is prescribed for unlike pairs, only symmetry.',
+        'DESIGN.md §2 C13',
+    ),
+    'C14': (
+        'proptest-generated cells/placements vs an independent lattice model (differential + metamorphic linearity, multiset comparison of periodic images)',
+        "Exploration: 4e5 (quick) / 2e7 (thorough) generated cells of all four families with arbitrary placements and shell counts 0..6, each compared with the harness's own lattice (M f, the full multiset of translates, |A x B|).",
         "Trusted: the harness's lattice formulas (geom.rs, unit-tested), serde deserialisation of Cell2 as the way to obtain arbitrary cells, f64 tolerance 1e-12 relative.",
-        "DESIGN.md §2 C14",
+        'DESIGN.md §2 C14',
+    ),
+    'C15': (
+        'proptest-generated sites (bound-heavy mixture, lattice-shifted twins) vs the ITA table: count, exact half-open range, permutation matching mod 1 (differential + metamorphic)',
+        'Exploration: 3e5 sites x twin per quick run, both state kinds.',
+        'Trusted: harness ITA table; matching as a permutation.',
+        'DESIGN.md §2 C15',
+    ),
+    'C16': (
+        'exhaustive comparison of the 7 parsed tables with the ITA general positions (set equality, closure, inverses, symmetry content, family) + generated points for the action',
+        'Exhaustive over the finite tables (every operation and pair of each group; evidence sets exhaustive:true) plus 7e4 generated points; the level is exploration because the action part is sampled.',
+        "Trusted: the harness's transcription of ITA plane groups 1,2,3,4,6,7,8.",
+        'DESIGN.md §2 C16',
+    ),
+    'C17': (
+        'grammar-based string generation with an AST evaluator as reference + arbitrary/mutated strings with a no-panic oracle; libFuzzer target with the same oracles in the thorough tier',
+        'Exploration: 3e5 grammar strings and 3e5 arbitrary strings per quick run (1e7 + coverage-guided fuzzing in thorough).',
+        "Trusted: the AST evaluator; the grammar never puts spaces inside d/d' or between a sign and its term.",
+        'DESIGN.md §2 C17',
+    ),
+    'C18': (
+        'scripted downhill proposals sized to the expected temperature of each inner loop; per-loop temperature inferred from acceptance frequencies with 6-sigma intervals (statistical, model-based)',
+        'Exploration: 3e3 schedules per quick run (1..12 loops of 1000/4000 steps), ratio and finish paths, kt_start=0.',
+        'Trusted: binomial intervals; every convention within one cooling step of kt_finish is accepted.',
+        'DESIGN.md §2 C18',
+    ),
+    'C19': (
+        "scripted rejection patterns per loop on synthetic states + real states behind a probe; every proposal's distance from its base compared with max_step*range/2 (invariant over the history)",
+        'Exploration: 1.2e4 scripted runs (3.5e7 steps) + 1.5e3 real runs per quick run, 1..30 loops, ranges 1e-3..1e3.',
+        'Trusted: trace model; the smaller candidate distance is used so a move is never over-reported.',
+        'DESIGN.md §2 C19',
+    ),
+    'C20': (
+        'proptest-generated configurations incl. zero/non-multiple step counts, paired runs with/without convergence compared bit for bit; grammar-generated CLI argument vectors (valid and invalid) with an exit-status/no-panic oracle',
+        'Exploration: 1.2e4 library runs (paired) and 320 CLI invocations per quick run.',
+        'Trusted: proposal counting via parameter changes; a CLI hang is reported as inconclusive, not as a violation.',
+        'DESIGN.md §2 C20',
     ),
 }
 
@@ -59,6 +173,6 @@ def main():
     json.dump(manifest, open(os.path.join(HERE, "MANIFEST.json"), "w"), indent=1)
     print("wrote MANIFEST.json with", len(checks), "checks,", len(na), "not applicable")
 
-HOOK_COMMITS = []
+HOOK_COMMITS = ["ec12ea8"]
 if __name__ == "__main__":
     main()
